@@ -479,7 +479,30 @@ var ruleDiv = &Rule{
 							guarded, zeroBlk = true, pr.Succs[1]
 						}
 					}
+					compound := false
+					if !guarded {
+						// the zero test may be one operand of a compound condition
+						// (`if l == 0 || r == 0`, a case clause, a flag variable)
+						for _, f := range factsAt(b) {
+							bo, ok := f.Cond.(*ssa.BinOp)
+							if !ok || !sameValue(bo.X, div) {
+								continue
+							}
+							c, ok := bo.Y.(*ssa.Const)
+							if !ok || c.Value == nil {
+								continue
+							}
+							if fv, _ := constant.Float64Val(constant.ToFloat(c.Value)); fv != 0 {
+								continue
+							}
+							if (bo.Op == token.EQL && !f.Truth) || (bo.Op == token.NEQ && f.Truth) {
+								guarded, compound = true, true
+							}
+						}
+					}
 					switch {
+					case guarded && compound && lastIsError(fn.Signature):
+						out.ok(key, p.pos(ins.Pos()), fnName(fn), "divisor excluded from zero by a compound condition (the error class of its zero branch is not examined here)")
 					case guarded && !lastIsError(fn.Signature):
 						out.ok(key, p.pos(ins.Pos()), fnName(fn), "divisor tested against zero first (the function reports no errors)")
 					case guarded:
